@@ -111,6 +111,7 @@ func c13Run(kind string, p, t *ref.T, form int, tTracked bool) core.Verdict {
 
 func checkC13(c *core.Ctx) {
 	defer sweepC13(c)
+	defer selfCases(c, true, "loss")
 	defer soakC13(c)
 	defer gridC12C13(c, true)
 	if c.Shard == 0 && c.Only == "" {
